@@ -336,7 +336,7 @@ def run(ctx):
     if ctx.tier == "quick":
         run_n(ctx, 300, 80, 12)
     else:
-        run_n(ctx, 3000, 800, 60)
+        run_n(ctx, 2700, 700, 60)
 
 
 def replay(ctx, doc):
